@@ -7,6 +7,8 @@
  *   REPLY(r)   a message with symbolic reply_serial r is queued and dispatched
  *   TIMEOUT(i) the timeout of call i fires (only while its timeout is installed), then dispatch
  *   CANCEL(i)  the application cancels call i
+ *   CLOSE      (jobs built with -DWITH_CLOSE, second step only) the peer closes: the real
+ *              connection_timeout_and_complete_all_pending_calls_unlocked runs, then everything queued is dispatched
  * Checked after each step: no call is notified more than once; a reply completes
  * exactly the attached call whose serial equals its reply_serial and no other; a
  * cancelled call is never notified; a timeout completes its call with the local
@@ -33,6 +35,9 @@ struct DBusCounter { int x; };
 #undef slot_allocator
 #ifndef NCALLS
 #define NCALLS 2
+#endif
+#ifndef PRE
+#define PRE 4
 #endif
 /* ---- messages: real DBusMessage objects (dbus-connection.c includes the private header) with a ghost side table ---- */
 #define NMSG 8
@@ -62,7 +67,11 @@ void _dbus_cmutex_unlock (DBusCMutex *m) { }
 void _dbus_condvar_wait (DBusCondVar *c, DBusCMutex *m) { VF_ASSERT (0, "single-threaded model: nobody else holds the dispatch path"); }
 void _dbus_condvar_wake_one (DBusCondVar *c) { }
 dbus_int32_t _dbus_atomic_inc (DBusAtomic *a) { return a->value++; }
-dbus_int32_t _dbus_atomic_dec (DBusAtomic *a) { return a->value--; }
+static DBusConnection conn;
+dbus_int32_t _dbus_atomic_dec (DBusAtomic *a)
+{ /* the application keeps its own reference to the connection throughout: finalisation (_dbus_connection_last_unref) is outside the model, and that it is not reached is an obligation */
+  if (a == &conn.refcount) { VF_ASSERT (a->value > 1, "the connection is not finalised while the application holds its reference"); a->value--; return 2; /* constant "not the last reference": cuts the finaliser syntactically */ }
+  return a->value--; }
 dbus_int32_t _dbus_atomic_get (DBusAtomic *a) { return a->value; }
 /* ---- int-keyed hash: 2-slot model calling the registered value-free function, as DBusHashTable does ---- */
 static int hfind (DBusHashTable *h, dbus_uint32_t k) { int i; for (i = 0; i < 2; i++) if (h->used[i] && h->key[i] == k) return i; return -1; }
@@ -71,6 +80,11 @@ dbus_bool_t _dbus_hash_table_insert_int (DBusHashTable *h, int key, void *v)
 { int i = hfind (h, (dbus_uint32_t) key); if (i < 0) { i = h->used[0] ? 1 : 0; VF_ASSERT (!h->used[i], "hash model capacity"); } h->key[i] = (dbus_uint32_t) key; h->val[i] = v; h->used[i] = 1; return 1; }
 dbus_bool_t _dbus_hash_table_remove_int (DBusHashTable *h, int key)
 { int i = hfind (h, (dbus_uint32_t) key); void *v; if (i < 0) return 0; v = h->val[i]; h->used[i] = 0; free_pending_call_on_hash_removal (v); return 1; }
+int _dbus_hash_table_get_n_entries (DBusHashTable *h) { return h->used[0] + h->used[1]; }
+void _dbus_hash_iter_init (DBusHashTable *h, DBusHashIter *it) { it->dummy1 = h; it->dummy5 = -1; }
+dbus_bool_t _dbus_hash_iter_next (DBusHashIter *it) { DBusHashTable *h = it->dummy1; int i; for (i = it->dummy5 + 1; i < 2; i++) if (h->used[i]) { it->dummy5 = i; return 1; } it->dummy5 = 2; return 0; }
+void *_dbus_hash_iter_get_value (DBusHashIter *it) { DBusHashTable *h = it->dummy1; return h->val[it->dummy5]; }
+void _dbus_hash_iter_remove_entry (DBusHashIter *it) { DBusHashTable *h = it->dummy1; void *v = h->val[it->dummy5]; h->used[it->dummy5] = 0; free_pending_call_on_hash_removal (v); }
 /* ---- timeouts ---- */
 static struct DBusTimeout tmo[NCALLS]; static int n_tmo;
 DBusTimeout *_dbus_timeout_new (int interval, DBusTimeoutHandler h, void *d, DBusFreeFunction f) { VF_ASSERT (n_tmo < NCALLS, "timeout pool"); tmo[n_tmo].id = n_tmo; tmo[n_tmo].handler = h; tmo[n_tmo].data = d; return &tmo[n_tmo++]; }
@@ -98,6 +112,7 @@ DBusHandlerResult _dbus_object_tree_dispatch_and_unlock (DBusObjectTree *t, DBus
 void *dbus_malloc0 (size_t n) { void *p = calloc (1, n <= sizeof (DBusPendingCall) ? sizeof (DBusPendingCall) : 512); VF_ASSUME (p != 0); return p; }
 void *dbus_malloc (size_t n) { void *p = malloc (64); VF_ASSERT (n <= 64, "small alloc"); VF_ASSUME (p != 0); return p; }
 void dbus_free (void *p) { if (p) free (p); }
+void _dbus_bus_notify_shared_connection_disconnected_unlocked (DBusConnection *c) { }
 void _dbus_counter_adjust_size (DBusCounter *c, long d) { }
 void _dbus_counter_adjust_unix_fd (DBusCounter *c, long d) { }
 void _dbus_message_remove_counter (DBusMessage *m, DBusCounter *c) { }
@@ -120,11 +135,29 @@ static DBusMessage *reqs[NCALLS]; static dbus_uint32_t serials[NCALLS]; static i
 static void lock (void) { _dbus_rmutex_lock ((DBusRMutex *) 1); conn.have_connection_lock = 1; }
 static void event (int step)
 {
-  int kind = vf_range (0, 2), i = vf_range (0, NCALLS - 1), k, before[NCALLS], attached[NCALLS]; dbus_uint32_t r = 0;
+#ifdef WITH_CLOSE
+  /* close jobs: the first event is CONCRETE (job shape PRE: 0 reply for call 0 / 1 timeout of call 0 / 2 cancel call 0 / 4 nothing) so that
+   * reference counts and table contents stay constants through the close (symbolic ones send symex into the connection finaliser) */
+  int kind = step == 1 ? 3 : PRE,
+#else
+  int kind = vf_range (0, 2),
+#endif
+#ifdef WITH_CLOSE
+      i = 0,
+#else
+      i = vf_range (0, NCALLS - 1),
+#endif
+      k, before[NCALLS], attached[NCALLS]; dbus_uint32_t r = 0;
   for (k = 0; k < NCALLS; k++) { before[k] = completions[k]; attached[k] = hfind (&ht, serials[k]) >= 0; }
   if (kind == 0)
     {
-      DBusMessage *m = mnew (vf_bool () ? DBUS_MESSAGE_TYPE_METHOD_RETURN : DBUS_MESSAGE_TYPE_ERROR, 77 + step, r = vf_u32 ()); DBusList *l = calloc (1, sizeof (DBusList));
+      DBusMessage *m = mnew (vf_bool () ? DBUS_MESSAGE_TYPE_METHOD_RETURN : DBUS_MESSAGE_TYPE_ERROR, 77 + step,
+#ifdef WITH_CLOSE
+                              r = serials[0]);
+#else
+                              r = vf_u32 ());
+#endif
+      DBusList *l = calloc (1, sizeof (DBusList));
       VF_ASSUME (l != 0);
       l->data = m; l->next = l->prev = l;
       lock ();
@@ -138,6 +171,21 @@ static void event (int step)
       reply_handler_timeout (calls[i]);
       dbus_connection_dispatch (&conn);
     }
+#ifdef WITH_CLOSE
+  else if (kind == 3)
+    {
+      /* the peer closes: the transport reports "not connected" and the Disconnected signal prepared at connection creation is still unsent;
+       * the real dispatch-status code then runs notify_disconnected_and_dispatch_complete_unlocked -> connection_timeout_and_complete_all_pending_calls_unlocked */
+      DBusList *dl = calloc (1, sizeof (DBusList)); VF_ASSUME (dl != 0);
+      dl->data = mnew (DBUS_MESSAGE_TYPE_SIGNAL, 0, 0); dl->next = dl->prev = dl;
+      conn.disconnect_message_link = dl;
+      tr.connected = 0;
+      for (k = 0; k < NCALLS + 2; k++) dbus_connection_dispatch (&conn);
+      VF_ASSERT (conn.disconnect_message_link == 0, "the Disconnected signal was queued (after the calls' errors)");
+      VF_ASSERT (conn.n_incoming == 0, "everything queued by the close was dispatched");
+    }
+#endif
+  else if (kind == 4) { }
   else
     {
       dbus_pending_call_cancel (calls[i]);
@@ -150,19 +198,32 @@ static void event (int step)
         VF_ASSERT (completions[k] == before[k] + ((attached[k] && r == serials[k]) ? 1 : 0), "a reply completes exactly the attached call whose serial equals its reply_serial, and no other call");
       else if (kind == 1)
         VF_ASSERT (completions[k] == before[k] + ((k == i) ? 1 : 0) && (k != i || completed_is_error[k]), "a timeout completes exactly its own call, with the local NoReply error");
+      else if (kind == 3)
+        {
+          VF_ASSERT (completions[k] <= before[k] + 1 && (attached[k] || completions[k] == before[k]), "a close completes no call twice and none that was already completed or cancelled");
+          VF_ASSERT (hfind (&ht, serials[k]) < 0 && !tmo[k].enabled, "after the close no call is outstanding and no timeout is installed");
+          /* the statement: "... or with a locally generated error if ... the connection closes first" */
+          if (attached[k]) VF_FINDING (completions[k] == before[k] + 1 && completed_is_error[k], "F12-close-drops-notify-observed-calls");
+        }
+      else if (kind == 4) VF_ASSERT (completions[k] == before[k], "nothing happened");
       else
         VF_ASSERT (completions[k] == before[k] && (k != i || hfind (&ht, serials[k]) < 0), "cancelling notifies nobody and detaches the call");
     }
   if (kind == 0 && NCALLS > 0 && attached[0] && r == serials[0]) VF_WITNESS_OPT ("a reply completed call 0");
   if (kind == 1) VF_WITNESS_OPT ("a timeout fired");
   if (kind == 2 && step == 0) VF_WITNESS_OPT ("a call was cancelled first");
+  if (kind == 3 && attached[0]) VF_WITNESS_OPT ("the peer closed with call 0 outstanding");
 }
 
 void harness (void)
 {
   int i, j;
   conn.refcount.value = 1; conn.generation = 1; conn.mutex = (DBusRMutex *) 1; conn.slot_mutex = (DBusRMutex *) 2; conn.pending_replies = &ht; conn.timeouts = &tl; conn.transport = &tr; conn.objects = &ot;
+#ifdef WITH_CLOSE
+  conn.client_serial = 41;                      /* close jobs: concrete serials keep the table model's slot choice constant (serial arithmetic is the two_events jobs' subject) */
+#else
   conn.client_serial = vf_u32 (); VF_ASSUME (conn.client_serial != 0);
+#endif
   for (i = 0; i < NCALLS; i++)
     {
       dbus_bool_t ok;
